@@ -244,9 +244,10 @@ def publication_gap(ck, hb, ref, work, job, ctx):
             prev = (d, os.path.basename(b))
         elif name == "openat" and len(args) > 2:
             pth = re.sub(r"/+", "/", (B.str_arg(args[1]) or b"").decode(errors="replace"))
-            if pth.startswith(croot) and "O_CREAT" in args[2]:
+            if pth.startswith(croot):
+                # any open of a cache file between two renames means they belong to different stages
                 prev = None
-                if ret is not None and ret >= 0:
+                if "O_CREAT" in args[2] and ret is not None and ret >= 0:
                     fds.add(ret)
         elif name == "write":
             if args and args[0].isdigit() and int(args[0]) in fds:
@@ -259,36 +260,35 @@ def publication_gap(ck, hb, ref, work, job, ctx):
     ck.cov["counters"]["publication_gaps"] = len(rn)
     if not rn:
         return
-    cache = os.path.join(work, "cache-gap")
-    B.rmtree(cache)
-    first, last = rn[0][0], rn[-1][0]
-    # strace takes one `when` per syscall: delay every rename in [first..last] that is the last of a stage - they are few
-    when = "%d..%d+%d" % (first, last, max(1, (last - first))) if len(rn) > 1 else "%d" % first
-    cmd = ["strace", "-o", os.path.join(work, "gap-a.strace"), "-e", "trace=rename",
-           "-e", "inject=rename:delay_enter=%d:when=%s" % (int(max(4.0, 1.5 * t_rec) * 1e6), when), hb] + job.args()
-    pa = B.popen_group(cmd, B.run_env(cache))
-    others, seen_first = [], set()
-    t0 = time.time()
-    while pa.poll() is None and time.time() - t0 < 900:
-        for (k, lastbase, d, firstbase) in rn:
-            dd = os.path.join(cache, "cache", os.path.basename(d))
-            if k not in seen_first and os.path.exists(os.path.join(dd, firstbase)) and not os.path.exists(os.path.join(dd, lastbase)):
-                seen_first.add(k)
+    # one run per gap: a builder that arrives in an early gap completes the whole build itself, so the later
+    # gaps of the same run would never open
+    chosen = rn if ctx.get("all_gaps") else ctx["rng"].sample(rn, min(2, len(rn)))
+    for (k, lastbase, d, firstbase) in chosen:
+        cache = os.path.join(work, "cache-gap-%d" % k)
+        B.rmtree(cache)
+        cmd = ["strace", "-o", os.path.join(work, "gap-a.strace"), "-e", "trace=rename",
+               "-e", "inject=rename:delay_enter=%d:when=%d" % (int(max(4.0, 1.5 * t_rec) * 1e6), k), hb] + job.args()
+        pa = B.popen_group(cmd, B.run_env(cache))
+        others = []
+        t0 = time.time()
+        dd = os.path.join(cache, "cache", os.path.basename(d))
+        while pa.poll() is None and time.time() - t0 < 900:
+            if not others and os.path.exists(os.path.join(dd, firstbase)) and not os.path.exists(os.path.join(dd, lastbase)):
                 others.append(B.popen_group([hb] + job.args(), B.run_env(cache)))
-        time.sleep(0.005)
-    ra = B.finish_group(pa, 900)
-    res = [B.finish_group(p, 900) for p in others]
-    ck.cov["counters"]["publication_gap_builders"] = len(res)
-    ck.cov["evaluations"] += 1 + len(res)
-    desc = "publication-gap %s" % job.name()
-    for i, (rc, so, se) in enumerate([ra] + res):
-        if not outcome_ok(job, rc, so):
-            ck.oracle_violation("process %d of a concurrent batch of %d fails or computes wrong values: rc=%s out=%s"
-                                % (i, 1 + len(res), rc, (so.strip() or se.strip()[-200:])[:240]), desc, name="batch")
-    bad = B.cache_good(cache, ref)
-    if bad:
-        ck.oracle_violation("after a concurrent batch a final-named file is not a complete artefact: " + "; ".join(bad[:3]), desc, name="batch")
-    B.rmtree(cache)
+            time.sleep(0.005)
+        ra = B.finish_group(pa, 900)
+        res = [B.finish_group(p, 900) for p in others]
+        ck.cov["counters"]["publication_gap_builders"] = ck.cov["counters"].get("publication_gap_builders", 0) + len(res)
+        ck.cov["evaluations"] += 1 + len(res)
+        desc = "publication-gap %s" % job.name()
+        for i, (rc, so, se) in enumerate([ra] + res):
+            if not outcome_ok(job, rc, so):
+                ck.oracle_violation("process %d of a concurrent batch of %d (the first one stopped between %s and %s) fails or computes wrong values: rc=%s out=%s"
+                                    % (i, 1 + len(res), firstbase, lastbase, rc, (so.strip() or se.strip()[-200:])[:240]), desc, name="batch")
+        bad = B.cache_good(cache, ref)
+        if bad:
+            ck.oracle_violation("after a concurrent batch a final-named file is not a complete artefact: " + "; ".join(bad[:3]), desc, name="batch")
+        B.rmtree(cache)
 
 
 CORPUS = ["slow-writer Serial s", "publication-gap OpenMP s"]
@@ -314,7 +314,7 @@ def main(argv):
     rng = ck.rng
     work = B.fresh_dir("C09-%d" % ck.seed)
     ref = B.Ref()
-    ctx = {"samples": [], "batches": 0}
+    ctx = {"samples": [], "batches": 0, "rng": random.Random(ck.rng.random()), "all_gaps": thorough}
     try:
         C = [rng.randint(2, 40), rng.randint(41, 80), rng.randint(81, 120)]
         ser = [Job("Serial", "s", C[0], work), Job("Serial", "f", C[1], work), Job("Serial", "s", C[2], work)]
